@@ -127,9 +127,10 @@ Definition cy_hash (hx : bool) (o : opts) (u : user) (fs : list field) : hashres
 
 (* generate_match_args: every field unless the decorator says kw_only (Field has no kw_only
    attribute, so the hasattr test is always false); init is not consulted *)
-Definition cy_match_args (o : opts) (u : user) (fs : list field) : option (list name) :=
+(* mx = true: the repaired loop also requires field.init *)
+Definition cy_match_args (mx : bool) (o : opts) (u : user) (fs : list field) : option (list name) :=
   if negb (o_match_args o) || u_match_args u then None
-  else Some (if o_kw_only o then [] else names fs).
+  else Some (if o_kw_only o then [] else names (if mx then filter f_init fs else fs)).
 
 (* where the value of a (non InitVar) attribute comes from after the synthesised __init__ *)
 Inductive src := SParam | SParamOrFactory | SDefault | SFactory | SUnset | SZero.
@@ -271,9 +272,9 @@ Record decisions := mkDec {
   d_post : option (list name)
 }.
 
-Definition cy_decide (hx : bool) (o : opts) (u : user) (fs : list field) : decisions :=
+Definition cy_decide (hx mx : bool) (o : opts) (u : user) (fs : list field) : decisions :=
   mkDec (cy_rejected o u fs) (cy_init_sig o u fs) (cy_repr_fields o u fs) (cy_eq_fields o u fs)
-        (cy_order_fields o fs) (cy_hash hx o u fs) (cy_match_args o u fs) (cy_body fs)
+        (cy_order_fields o fs) (cy_hash hx o u fs) (cy_match_args mx o u fs) (cy_body fs)
         (post_init_args u fs).
 
 Definition py_decide (o : opts) (u : user) (fs : list field) : decisions :=
